@@ -422,6 +422,9 @@ class Folder:
                     return Poly.const(Fraction(rn, rd))
             if isinstance(v, Diag) and v.kind == "arange":
                 return Diag("sqrt-arange", v.params)
+            if isinstance(v, Poly) and v.is_scalar():
+                # opaque atom: sqrt of a non-constant scalar (keeps |.| semantics: never simplified to a signed root)
+                return Poly({(0, (), ((("sqrt", (("#" + repr(v), Fraction(1)),)), 1),), (), ()): (Fraction(1), Fraction(0))})
             raise Unfoldable("sqrt")
         if n in ("cos", "sin") and args:
             return trig(n, self.fold(args[0]))
